@@ -241,19 +241,10 @@ type canon struct {
 }
 
 // canonicalize garbage-collects and renumbers the fresh objects of an outcome.
-func (w *Worker) canonicalize(o Outcome, base int, parent func(int) (Value, bool)) *canon {
+func (w *Worker) canonicalize(o Outcome, base int, modified []int) *canon {
 	st := o.st
 	c := &canon{out: o, modVals: map[int]Value{}}
-	for id, v := range st.heap {
-		if id > base {
-			continue
-		}
-		if pv, ok := parent(id); ok && identical(pv, v) {
-			continue
-		}
-		c.modified = append(c.modified, id)
-	}
-	sort.Ints(c.modified)
+	c.modified = modified
 	r := &remapper{st: st, base: base, m: map[int]int{}}
 	r.visit(o.ret)
 	for _, id := range c.modified {
@@ -287,7 +278,7 @@ func (w *Worker) canonicalize(o Outcome, base int, parent func(int) (Value, bool
 	return c
 }
 
-func (w *Worker) mergeOutcomes(outs []Outcome, base int, basePC int) []Outcome {
+func (w *Worker) mergeOutcomes(outs []Outcome, base int, basePC int, mark int) []Outcome {
 	// the common parent heap is not retained; compare against the first
 	// outcome's view of old objects via the base heap + "was it touched".
 	// An old object counts as modified if its overlay entry differs from the
@@ -305,38 +296,28 @@ func (w *Worker) mergeOutcomes(outs []Outcome, base int, basePC int) []Outcome {
 	if len(normals) < 2 {
 		return outs
 	}
-	// parent view: an old id is unmodified iff all outcomes hold identical values.
-	agree := map[int]Value{}
-	first := normals[0].st
-	for id, v := range first.heap {
-		if id <= base {
-			agree[id] = v
+	// old objects written by any outcome since the call was entered
+	modSet := map[int]bool{}
+	for _, o := range normals {
+		if len(o.st.dirty) < mark {
+			return outs // log was reset (should not happen)
 		}
-	}
-	for _, o := range normals[1:] {
-		for id, v := range agree {
-			ov, ok := o.st.heap[id]
-			if !ok {
-				bv, bok := o.st.base[id]
-				if !bok || !identical(bv, v) {
-					delete(agree, id)
-				}
-				continue
-			}
-			if !identical(ov, v) {
-				delete(agree, id)
+		for _, id := range o.st.dirty[mark:] {
+			if id <= base {
+				modSet[id] = true
 			}
 		}
 	}
-	parent := func(id int) (Value, bool) {
-		v, ok := agree[id]
-		return v, ok
+	var modified []int
+	for id := range modSet {
+		modified = append(modified, id)
 	}
+	sort.Ints(modified)
 	// ids present in some overlays but not in first's: they were modified relative to base in that outcome only
 	groups := map[string][]*canon{}
 	var order []string
 	for _, o := range normals {
-		c := w.canonicalize(o, base, parent)
+		c := w.canonicalize(o, base, modified)
 		c.delta = mkAnd(o.st.pc[basePC:]...)
 		if _, ok := groups[c.sig]; !ok {
 			order = append(order, c.sig)
@@ -350,7 +331,7 @@ func (w *Worker) mergeOutcomes(outs []Outcome, base int, basePC int) []Outcome {
 			result = append(result, g[0].out)
 			continue
 		}
-		m, ok := w.mergeGroup(g, base, basePC)
+		m, ok := w.mergeGroup(g, base, basePC, mark)
 		if !ok {
 			for _, c := range g {
 				result = append(result, c.out)
@@ -363,7 +344,7 @@ func (w *Worker) mergeOutcomes(outs []Outcome, base int, basePC int) []Outcome {
 	return result
 }
 
-func (w *Worker) mergeGroup(g []*canon, base int, basePC int) (res Outcome, ok bool) {
+func (w *Worker) mergeGroup(g []*canon, base int, basePC int, mark int) (res Outcome, ok bool) {
 	defer func() {
 		if r := recover(); r != nil {
 			if _, isMF := r.(mergeFail); isMF {
@@ -438,6 +419,7 @@ func (w *Worker) mergeGroup(g []*canon, base int, basePC int) (res Outcome, ok b
 	}
 	st.trail = src.trail
 	st.obs = obs
+	st.dirty = append(src.dirty[:mark:mark], last.modified...)
 	// a model of any constituent is a model of the merged pc, but merged
 	// values may evaluate differently only through the ite guards, which the
 	// same model decides consistently: keep the last one's model.
